@@ -47,7 +47,7 @@ RULE = (
     "the base as a string; distinct = distinct (members, options)."
 )
 EXHAUSTIVE = {
-    "quick": "every URL of the structure sweep (2343 shapes) and of the length-1 component sweep, each with one spelling transformation and one irrelevant variation, rotating through all 21 (fixed seeds), defaults; the 8 option combinations on the corpus",
+    "quick": "every URL of the structure sweep (2343 shapes) and of the length-1 component sweep, each with one spelling transformation and one irrelevant variation, rotating through all 22 (fixed seeds), defaults; the 8 option combinations on the corpus",
     "thorough": "every single transformation on every URL of the structure sweep and of the length-1 component sweep",
 }
 TRUSTED = [
@@ -139,7 +139,15 @@ def n_fragment(p, rng):
     return W(p, fragment=rng.choice([None, "", "top", "Top", "x=1", "%41", "a/b"]))
 
 
+def n_ends(p, rng):
+    """control characters outside the surrounding whitespace (the cleaning pass removes control
+    characters first, then strips)"""
+    mix = ["\x00 ", " \x00", "\x00\t\x00", "\x85 ", "\n\x7f ", "\x1f", " \x9f\u3000"]
+    return W(p, pre=rng.choice(mix + [""]), post=rng.choice(mix + [""]))
+
+
 N_TRANSFORMS = {
+    "n-ends": n_ends,
     "n-label": n_label, "n-scheme": n_scheme, "n-userinfo": n_userinfo, "n-port": n_port, "n-track": n_track,
     "n-perm": n_perm, "n-tail": n_tail, "n-slash": n_slash, "n-fragment": n_fragment,
 }
@@ -219,6 +227,8 @@ CORPUS = [
     ["a.com/Index.html", "a.com/Index.html/index.html"],
     ["http://a.com/x%E3%80%80"],
     ["a.com?k=a=b&k=a5"],
+    # cleaning order: control characters go first, then the surrounding whitespace
+    ["\x00 a.com/x", "a.com/x \x00", " \x00 http://a.com/x", "a.com/x"],
     # further shapes
     ["HTTP://User:Pw@WWW.M.Example.com:8080/a/../B/index.html?utm_source=x&b=2&a=1&amp;ref=fb#top"],
     ["amp-www2.a.com:80/x/amp/?s=12&z=%41&y#/route"],
@@ -243,7 +253,7 @@ def cases(rng, tier):
                 yield _mk(parts=p, recipes=[[t]], tseed=k, o=OPTS[0] if k % 3 else OPTS[k % 8])
         else:
             yield _mk(parts=p, recipes=[[c02[k % len(c02)]], [nts[k % len(nts)]]], tseed=k, o=OPTS[0])
-    n = 2000 if tier == "quick" else 40000
+    n = 4000 if tier == "quick" else 40000
     for i in range(n):
         p = nc.random_norm_parts(rng) if i % 3 else urlgen.random_parts(rng)
         recipes = [[rng.choice(TN) for _ in range(rng.randint(1, 3))] for _ in range(rng.randint(1, 3))]
